@@ -159,8 +159,12 @@ def main():
                     continue
                 callee, args, _ = first_inner_call(body, with_provider_only=True)
                 srcs = [arg_source(a, params) for a in args]
+                # shape of the body: number of top-level statements (lock; forwarding call — anything more touches
+                # the arguments or the result), and whether the forwarding call is the tail expression
+                stmts = split_top(body, ";")
+                tail_is_call = bool(stmts) and re.match(r"^(self\b|[A-Z]\w*::)", stmts[-1].strip()) is not None and callee in stmts[-1]
                 rows.append(("compiled", ty, name, (["self"] if has_self else []) + params, callee,
-                             (["self"] if has_self else []) + srcs))
+                             (["self"] if has_self else []) + srcs, len(stmts) if tail_is_call else 99))
     # ---- FFI layer
     fdir = os.path.join(REPO, "temporal_capi", "src")
     enums = []
@@ -172,7 +176,7 @@ def main():
             callee, args, recv = first_inner_call(body)
             srcs = [arg_source(a, params) for a in args]
             rows.append(("capi", ty, name, (["self"] if has_self else []) + params, callee,
-                         (["self"] if has_self and recv.startswith("self") else []) + srcs))
+                         (["self"] if has_self and recv.startswith("self") else []) + srcs, 0))
         clean = strip_comments(src)
         for m in re.finditer(r"enum_convert\(([\w:]+)(?:,[^)]*)?\)\]\s*pub\s+enum\s+(\w+)\s*\{([^}]*)\}", clean):
             core, ffi, body = m.group(1), m.group(2), m.group(3)
@@ -233,11 +237,11 @@ def main():
                 "  (temporal_capi/src): what it is called, what it takes, what it calls and with what.\n-/\n")
         o.write("namespace TemporalModel.Generated\n\n")
         o.write("structure Wrapper where\n  layer : String\n  type : String\n  name : String\n  params : List String\n"
-                "  callee : String\n  args : List String\n  deriving Repr, DecidableEq\n\n")
+                "  callee : String\n  args : List String\n  /-- convenience layer: top-level statements of the body (99: the call is not the tail) -/\n  stmts : Nat\n  deriving Repr, DecidableEq\n\n")
         o.write("def wrappers : List Wrapper := [\n")
         o.write(",\n".join(
-            f"  ⟨{lean_str(l)}, {lean_str(t)}, {lean_str(n)}, {lean_list(p)}, {lean_str(c)}, {lean_list(a)}⟩"
-            for l, t, n, p, c, a in rows))
+            f"  ⟨{lean_str(l)}, {lean_str(t)}, {lean_str(n)}, {lean_list(p)}, {lean_str(c)}, {lean_list(a)}, {k}⟩"
+            for l, t, n, p, c, a, k in rows))
         o.write("\n]\n\n")
         o.write("structure EnumMap where\n  ffi : String\n  core : String\n  ffiVariants : List String\n  coreVariants : List String\n"
                 "  deriving Repr, DecidableEq\n\n")
